@@ -419,121 +419,152 @@ structure Tree (α : Type) where
 /-- `ESL_MAX(0., x)` = `((0.) > (x)) ? (0.) : (x)` -/
 def max0 {α} [WNum α] (x : α) : α := if ltb x (ofNat 0) then ofNat 0 else x
 
-def swapCols {α} [WNum α] (D : Array α) (n N a b : Nat) : Array α := Id.run do
-  let mut D := D
-  for row in [0:N] do
+/-- `for (row = 0; row < N; row++) ESL_SWAP(D->mx[row][a], D->mx[row][b], double)` -/
+def swapCols {α} [WNum α] (D : Array α) (n N a b : Nat) : Array α :=
+  (List.range N).foldl (fun D row =>
     let t := mget D n row a
-    D := mset D n row a (mget D n row b)
-    D := mset D n row b t
-  return D
+    mset (mset D n row a (mget D n row b)) n row b t) D
 
-def swapRows {α} [WNum α] (D : Array α) (n N a b : Nat) : Array α := Id.run do
-  let mut D := D
-  for col in [0:N] do
+/-- `for (col = 0; col < N; col++) ESL_SWAP(D->mx[a][col], D->mx[b][col], double)` -/
+def swapRows {α} [WNum α] (D : Array α) (n N a b : Nat) : Array α :=
+  (List.range N).foldl (fun D col =>
     let t := mget D n a col
-    D := mset D n a col (mget D n b col)
-    D := mset D n b col t
-  return D
+    mset (mset D n a col (mget D n b col)) n b col t) D
+
+/-- the minimum search: `minD = D[0][1]; i = 0; j = 1;` then strict `<` over the upper triangle in row-major order -/
+def findMin {α} [WNum α] (D : Array α) (n N : Nat) : α × Nat × Nat :=
+  (List.range N).foldl (fun st row =>
+    (List.range' (row + 1) (N - (row + 1))).foldl (fun st col =>
+      if ltb (mget D n row col) st.1 then (mget D n row col, row, col) else st) st) (mget D n 0 1, 0, 1)
+
+structure UState (α : Type) where
+  D : Array α
+  idx : Array Int
+  nin : Array Nat
+  height : Array α
+  left : Array Int
+  right : Array Int
+  ld : Array α
+  rd : Array α
+
+/-- merging rows/columns i = N-2 and j = N-1 under the UPGMA rule, column by column, mirroring each new value -/
+def mergeCols {α} [WNum α] (D : Array α) (n N ni nj : Nat) : Array α :=
+  (List.range N).foldl (fun D col =>
+    let v := (ofNat ni * mget D n (N - 2) col + ofNat nj * mget D n (N - 1) col) / ofNat (ni + nj)
+    mset (mset D n (N - 2) col v) n col (N - 2) v) D
+
+/-- `if (pos != target) { swap columns, swap rows }`: move row/column `pos` to `target` -/
+def moveTo {α} [WNum α] (D : Array α) (n N target pos : Nat) : Array α :=
+  if pos != target then swapRows (swapCols D n N target pos) n N target pos else D
+
+def moveIdx {β} (a : Array β) (target pos : Nat) : Array β := if pos != target then a.swapIfInBounds pos target else a
+
+/-- `T->ld[N-2]` resp. `T->rd[N-2]`: height, minus the child's height (clamped at 0) if the child is an internal node -/
+def branchLen {α} [WNum α] (h : α) (height : Array α) (child : Int) : α :=
+  if child > 0 then max0 (h - vget height child.toNat) else h
+
+/-! one pass of the `for (N = D->n; N >= 2; N--)` loop of `cluster_engine` (mode eslUPGMA), `N = n - step`, field by field -/
+section step
+variable {α : Type} [WNum α] (n : Nat) (st : UState α) (step : Nat)
+def stepMin : α × Nat × Nat := findMin st.D n (n - step)
+def stepI : Nat := (stepMin n st step).2.1
+def stepJ : Nat := (stepMin n st step).2.2
+/-- `height[N-2] = minD / 2.` -/
+def stepH : α := (stepMin n st step).1 / ofNat 2
+def stepHeight : Array α := st.height.setIfInBounds (n - step - 2) (stepH n st step)
+def stepLeft : Int := st.idx.getD (stepI n st step) 0
+def stepRight : Int := st.idx.getD (stepJ n st step) 0
+/-- the matrix after moving j to N-1 and i to N-2 -/
+def stepMoved : Array α :=
+  moveTo (moveTo st.D n (n - step) (n - step - 1) (stepJ n st step)) n (n - step) (n - step - 2) (stepI n st step)
+def stepNin : Array Nat := moveIdx (moveIdx st.nin (n - step - 1) (stepJ n st step)) (n - step - 2) (stepI n st step)
+def stepIdx : Array Int := moveIdx (moveIdx st.idx (n - step - 1) (stepJ n st step)) (n - step - 2) (stepI n st step)
+
+def upgmaStep : UState α :=
+  { D := mergeCols (stepMoved n st step) n (n - step) ((stepNin n st step).getD (n - step - 2) 0) ((stepNin n st step).getD (n - step - 1) 0)
+    idx := (stepIdx n st step).setIfInBounds (n - step - 2) (((n - step : Nat) : Int) - 2)
+    nin := (stepNin n st step).setIfInBounds (n - step - 2)
+             ((stepNin n st step).getD (n - step - 2) 0 + (stepNin n st step).getD (n - step - 1) 0)
+    height := stepHeight n st step
+    left := st.left.setIfInBounds (n - step - 2) (stepLeft n st step)
+    right := st.right.setIfInBounds (n - step - 2) (stepRight n st step)
+    ld := st.ld.setIfInBounds (n - step - 2) (branchLen (stepH n st step) (stepHeight n st step) (stepLeft n st step))
+    rd := st.rd.setIfInBounds (n - step - 2) (branchLen (stepH n st step) (stepHeight n st step) (stepRight n st step)) }
+end step
+
+def upgmaInit {α} [WNum α] (n : Nat) (D0 : Array α) : UState α :=
+  { D := D0
+    idx := (Array.range n).map fun (i : Nat) => -(Int.ofNat i)
+    nin := Array.replicate n 1
+    height := Array.replicate (n - 1) (ofNat 0)
+    left := Array.replicate (n - 1) 0
+    right := Array.replicate (n - 1) 0
+    ld := Array.replicate (n - 1) (ofNat 0)
+    rd := Array.replicate (n - 1) (ofNat 0) }
 
 /-- `cluster_engine(D, eslUPGMA, &T)` on an n×n matrix, n ≥ 2 -/
-def upgma {α} [WNum α] (n : Nat) (D0 : Array α) : Tree α := Id.run do
-  let mut D := D0
-  let mut idx : Array Int := (Array.range n).map fun (i : Nat) => -(Int.ofNat i)
-  let mut nin : Array Nat := Array.replicate n 1
-  let mut height : Array α := Array.replicate (n - 1) (ofNat 0)
-  let mut left : Array Int := Array.replicate (n - 1) 0
-  let mut right : Array Int := Array.replicate (n - 1) 0
-  let mut ld : Array α := Array.replicate (n - 1) (ofNat 0)
-  let mut rd : Array α := Array.replicate (n - 1) (ofNat 0)
-  for step in [0:n - 1] do
-    let N := n - step
-    let mut minD := mget D n 0 1
-    let mut i := 0
-    let mut j := 1
-    for row in [0:N] do
-      for col in [row + 1:N] do
-        if ltb (mget D n row col) minD then
-          minD := mget D n row col
-          i := row
-          j := col
-    let ii := idx.getD i 0
-    let ij := idx.getD j 0
-    left := left.setIfInBounds (N - 2) ii
-    right := right.setIfInBounds (N - 2) ij
-    let h := minD / ofNat 2
-    height := height.setIfInBounds (N - 2) h
-    let l := if ii > 0 then max0 (h - vget height ii.toNat) else h
-    let r := if ij > 0 then max0 (h - vget height ij.toNat) else h
-    ld := ld.setIfInBounds (N - 2) l
-    rd := rd.setIfInBounds (N - 2) r
-    if j != N - 1 then
-      D := swapCols D n N (N - 1) j
-      D := swapRows D n N (N - 1) j
-      idx := idx.swapIfInBounds j (N - 1)
-      nin := nin.swapIfInBounds j (N - 1)
-    if i != N - 2 then
-      D := swapCols D n N (N - 2) i
-      D := swapRows D n N (N - 2) i
-      idx := idx.swapIfInBounds i (N - 2)
-      nin := nin.swapIfInBounds i (N - 2)
-    let i2 := N - 2
-    let j2 := N - 1
-    let ni := nin.getD i2 0
-    let nj := nin.getD j2 0
-    for col in [0:N] do
-      let v := (ofNat ni * mget D n i2 col + ofNat nj * mget D n j2 col) / ofNat (ni + nj)
-      D := mset D n i2 col v
-      D := mset D n col i2 v
-    nin := nin.setIfInBounds i2 (ni + nj)
-    idx := idx.setIfInBounds i2 ((N : Int) - 2)
-  return ⟨left, right, ld, rd⟩
+def upgma {α} [WNum α] (n : Nat) (D0 : Array α) : Tree α :=
+  let st := (List.range (n - 1)).foldl (upgmaStep n) (upgmaInit n D0)
+  ⟨st.left, st.right, st.ld, st.rd⟩
 
-/-- `esl_tree_SetCladesizes` -/
-def cladesizes {α} (T : Tree α) (n : Nat) : Array Nat := Id.run do
-  let mut cs : Array Nat := Array.replicate (n - 1) 0
-  for k in [0:n - 1] do
+/-- `esl_tree_SetCladesizes`: i = N-2 down to 0 -/
+def cladesizes {α} (T : Tree α) (n : Nat) : Array Nat :=
+  (List.range (n - 1)).foldl (fun cs k =>
     let i := n - 2 - k
     let l := T.left.getD i 0
     let r := T.right.getD i 0
-    cs := cs.setIfInBounds i (cs.getD i 0 + (if l ≤ 0 then 1 else cs.getD l.toNat 0))
-    cs := cs.setIfInBounds i (cs.getD i 0 + (if r ≤ 0 then 1 else cs.getD r.toNat 0))
-  return cs
+    let cs := cs.setIfInBounds i (cs.getD i 0 + (if l ≤ 0 then 1 else cs.getD l.toNat 0))
+    cs.setIfInBounds i (cs.getD i 0 + (if r ≤ 0 then 1 else cs.getD r.toNat 0))) (Array.replicate (n - 1) 0)
 
-/-- the two traversals of `esl_msaweight_GSC`; result = `msa->wgt[]` before the final normalisation -/
-def gscTraverse {α} [WNum α] (T : Tree α) (n : Nat) : Array α := Id.run do
+/-- postorder pass: `x[i] = ld[i] + rd[i] (+ x[left]) (+ x[right])`, i = N-2 down to 0 -/
+def gscUp {α} [WNum α] (T : Tree α) (n : Nat) : Array α :=
+  (List.range (n - 1)).foldl (fun x k =>
+    let i := n - 2 - k
+    let l := T.left.getD i 0
+    let r := T.right.getD i 0
+    let x0 := vget T.ld i + vget T.rd i
+    let x1 := if l > 0 then x0 + vget x l.toNat else x0
+    let x2 := if r > 0 then x1 + vget x r.toNat else x1
+    x.setIfInBounds i x2) (Array.replicate (n - 1) (ofNat 0))
+
+/-- `lw = T->ld[i]; if (T->left[i] > 0) lw += x[T->left[i]]` (same for the right side with `rd`, `right`) -/
+def sideLen {α} [WNum α] (d : Array α) (child : Array Int) (x : Array α) (i : Nat) : α :=
+  if child.getD i 0 > 0 then vget d i + vget x (child.getD i 0).toNat else vget d i
+
+/-- the share of `x[i]` passed to one child: in proportion to branch weight `mine/(lw+rw)`, or to clade size when
+    `lw+rw == 0.` -/
+def share {α} [WNum α] (cs : Array Nat) (child : Array Int) (xi mine total : α) (i : Nat) : α :=
+  if isZero total then
+    (if child.getD i 0 > 0 then xi * (ofNat (cs.getD (child.getD i 0).toNat 0) / ofNat (cs.getD i 0))
+     else xi / ofNat (cs.getD i 0))
+  else xi * mine / total
+
+/-- `if (child <= 0) msa->wgt[-child] = v; else x[child] = v;` -/
+def putChild {α} (st : Array α × Array α) (child : Int) (v : α) : Array α × Array α :=
+  if child ≤ 0 then (st.1, st.2.setIfInBounds (-child).toNat v) else (st.1.setIfInBounds child.toNat v, st.2)
+
+/-- one node of the preorder pass; state = (`x[]`, `msa->wgt[]`) -/
+def gscDownStep {α} [WNum α] (T : Tree α) (cs : Array Nat) (st : Array α × Array α) (i : Nat) : Array α × Array α :=
+  let lw := sideLen T.ld T.left st.1 i
+  let rw := sideLen T.rd T.right st.1 i
+  let xi := vget st.1 i
+  let lx := share cs T.left xi lw (lw + rw) i
+  let rx := share cs T.right xi rw (lw + rw) i
+  putChild (putChild st (T.left.getD i 0) (lx + vget T.ld i)) (T.right.getD i 0) (rx + vget T.rd i)
+
+/-- the two traversals of `esl_msaweight_GSC`; result = `msa->wgt[]` before the final normalisation
+    (`msa->wgt[]` holds 1.0 on entry in the harness; every entry is overwritten for a well-formed tree) -/
+def gscTraverse {α} [WNum α] (T : Tree α) (n : Nat) : Array α :=
   let cs := cladesizes T n
-  let mut x : Array α := Array.replicate (n - 1) (ofNat 0)
-  for k in [0:n - 1] do
-    let i := n - 2 - k
-    let l := T.left.getD i 0
-    let r := T.right.getD i 0
-    let mut xi := vget T.ld i + vget T.rd i
-    if l > 0 then xi := xi + vget x l.toNat
-    if r > 0 then xi := xi + vget x r.toNat
-    x := x.setIfInBounds i xi
-  x := x.setIfInBounds 0 (ofNat 0)
-  let mut w : Array α := Array.replicate n (ofNat 1)
-  for i in [0:n - 1] do
-    let l := T.left.getD i 0
-    let r := T.right.getD i 0
-    let lw := if l > 0 then vget T.ld i + vget x l.toNat else vget T.ld i
-    let rw := if r > 0 then vget T.rd i + vget x r.toNat else vget T.rd i
-    let xi := vget x i
-    let csi : α := ofNat (cs.getD i 0)
-    let lx := if isZero (lw + rw) then
-                (if l > 0 then xi * (ofNat (cs.getD l.toNat 0) / csi) else xi / csi)
-              else xi * lw / (lw + rw)
-    let rx := if isZero (lw + rw) then
-                (if r > 0 then xi * (ofNat (cs.getD r.toNat 0) / csi) else xi / csi)
-              else xi * rw / (lw + rw)
-    if l ≤ 0 then w := w.setIfInBounds (-l).toNat (lx + vget T.ld i)
-    else x := x.setIfInBounds l.toNat (lx + vget T.ld i)
-    if r ≤ 0 then w := w.setIfInBounds (-r).toNat (rx + vget T.rd i)
-    else x := x.setIfInBounds r.toNat (rx + vget T.rd i)
-  return w
+  let x := (gscUp T n).setIfInBounds 0 (ofNat 0)
+  ((List.range (n - 1)).foldl (gscDownStep T cs) (x, Array.replicate n (ofNat 1))).2
+
+/-- `msa->wgt[0..nseq-1]` before the final normalisation -/
+def gscRaw {α} [WNum α] (m : Mode) (rows : List Row) : List α :=
+  let w := gscTraverse (upgma rows.length (diffMx (α := α) m rows)) rows.length
+  (List.range rows.length).map (vget w)
 
 def gsc {α} [WNum α] (m : Mode) (rows : List Row) : List α :=
-  if rows.length == 1 then [ofNat 1] else
-  normalizeToN (gscTraverse (upgma rows.length (diffMx (α := α) m rows)) rows.length).toList
+  if rows.length == 1 then [ofNat 1] else normalizeToN (gscRaw m rows)
 
 end EaselModel.Weights
